@@ -78,6 +78,10 @@ func flowMap(kv ...*yaml.Node) *yaml.Node {
 	return n
 }
 
+func binaryNode(base64Text string) *yaml.Node {
+	return &yaml.Node{Kind: yaml.ScalarNode, Tag: "!!binary", Value: base64Text}
+}
+
 func isNull(n *yaml.Node) bool {
 	return n == nil || (n.Kind == yaml.ScalarNode && n.ShortTag() == "!!null")
 }
@@ -152,6 +156,12 @@ func scalarKinds(orig *yaml.Node) []scalarKind {
 	for _, v := range []string{"10XB", "-1GB", "99999999999999999999GB", "0GB", "1.5GB", "GB", "16EB", "30x", "-30s", "9999999999h", "0s", "30", "1h1", ":", "%zz", "localhost", "localhost:99999", "localhost:-1", "http://[::1", ":0", "[::1]:0", "a:b:c"} {
 		kinds = append(kinds, scalarKind{name: "unit:" + v, family: "scalar:size-duration-address", value: v})
 	}
+	// explicit !!binary scalars: the only way to write bytes >= 0xF5 and invalid UTF-8 in general into a name, pattern,
+	// template, label or tag (base64 of: 0xFF; "[a-\xff]"; 0x80 0x80 0x80)
+	for _, v := range []string{"/w==", "W2Et/10=", "gICA"} {
+		v := v
+		kinds = append(kinds, scalarKind{name: "bin:" + v, family: "scalar:binary", node: func() *yaml.Node { return binaryNode(v) }})
+	}
 	return kinds
 }
 
@@ -166,7 +176,7 @@ func applicable(leaf, family string) bool {
 	case "type", "messageMode", "hiddenFields[]", "levelMapping[]", "tls":
 		return family == "scalar:generic"
 	case "key", "destKey", "field", "fields[]", "keys[]", "metricKeys[]", "environmentFields[]":
-		return family == "scalar:generic" || family == "scalar:template" || family == "scalar:number"
+		return family == "scalar:generic" || family == "scalar:template" || family == "scalar:number" || family == "scalar:binary"
 	}
 	return true
 }
